@@ -700,6 +700,9 @@ def struct_rw_fold_rule(repo: Repo, rep: Report, rid: str, max_len: int = 2) -> 
 
 
 def run(repo: Repo, rep: Report, tier: str) -> None:
+    from .compiled import compiled_fold_rule, shape_rule
+
+    compiled_fold_rule(repo, rep, "C04.R16", tier)
     type_table_rule(repo, rep, "C04.R1")
     provenance_rule(repo, rep, "C04.R2")
     calculator_rule(repo, rep, "C04.R3")
@@ -726,7 +729,7 @@ def run(repo: Repo, rep: Report, tier: str) -> None:
     zero_alignment_rule(repo, rep, "C04.R14")
     from .c03 import block_alignment_rule
 
-    block_alignment_rule(repo, rep, "C04.R15")
+    shape_rule(repo, rep, tier, block_alignment_rule, "C04.R15")
 
 
 
